@@ -277,7 +277,7 @@ Definition line_text_at (st : symtab) (addr : Z) : option (Z * option str) :=
 Fixpoint blocks_ok (lo : Z) (bs : blocks) : bool :=
   match bs with
   | [] => true
-  | (s, ws) :: r => (lo <=? s) && (0 <? zlen ws) && (s + zlen ws <=? 65536) && blocks_ok (s + zlen ws) r
+  | (s, ws) :: r => (lo <=? s) && (0 <? zlen ws) && (s + zlen ws <=? 65535) && blocks_ok (s + zlen ws) r
   end.
 (* the memory image as a map: the content of the first block covering the address *)
 Fixpoint img_blocks (bs : blocks) (addr : Z) : option (option Z) :=
